@@ -22,7 +22,7 @@ def tree_strategy():
     # names that extend a sibling's name (a/ab, d1/d10): string-prefix tests on paths confuse them
     name = st.one_of(st.sampled_from(SMALL), st.sampled_from(SMALL), st.sampled_from(PREFIXED), G.component(10, fs_safe=True))
     mtime = st.one_of(st.integers(1, 4102444800).map(lambda s: s * 10 ** 9), st.integers(10 ** 9, 4102444800 * 10 ** 9),
-                      st.sampled_from([978307200 * 10 ** 9 + 123456700, 2147483648 * 10 ** 9 + 999999900, 86400 * 10 ** 9 + 100]))
+                      st.sampled_from([978307200 * 10 ** 9 + 123456700, 2147483648 * 10 ** 9 + 999999900, 86400 * 10 ** 9 + 100, 0, 0, 10 ** 9]))
     leaf = st.fixed_dictionaries({"kind": st.just("file"), "name": name, "data": G.contents(3000), "mode": st.one_of(st.sampled_from(FILE_MODES), st.integers(0o400, 0o777)), "mtime_ns": mtime})
 
     def node(children):
